@@ -100,19 +100,38 @@ def fix (c : Nat) (e : Int) : Res (Nat × Int) :=
       let (q'', e'') := if ndigits q' > PREC then (q' / 10, e + d + 1) else (q', e + d)
       if e'' + PREC - 1 > EMAX then .error overflow else .ok (q'', e'')
 
-/-- `int(Decimal)` of `c · 10^e`, `c ≥ 0`: truncation -/
-def truncDec (c : Nat) (e : Int) : Nat :=
+/-- `int(Decimal)` of `c · 10^e` for `c > 0`: truncation -/
+def truncDecNZ (c : Nat) (e : Int) : Nat :=
   if 0 ≤ e then c * 10 ^ e.toNat
   else if ndigits c ≤ (-e).toNat then 0          -- c < 10^(-e)
   else c / 10 ^ (-e).toNat
 
+/-- `int(Decimal)` of `c · 10^e`, `c ≥ 0` (a zero coefficient is 0 whatever the exponent) -/
+def truncDec (c : Nat) (e : Int) : Nat := if c = 0 then 0 else truncDecNZ c e
+
 def applySign (neg : Bool) (n : Nat) : Int := if neg then -(n : Int) else (n : Int)
 
-/-- `int(r * COIN)` where `r` is what `json.loads(…, parse_float=decimal.Decimal)` made of the text -/
+/-- `sys.get_int_max_str_digits()`: `int(text)` refuses longer digit strings with ValueError -/
+def INT_MAX_STR_DIGITS : Nat := 4300
+/-- `decimal.MAX_EMAX` / `decimal.MIN_ETINY`: `Decimal(text)` signals InvalidOperation beyond them -/
+def MAX_EMAX : Int := 999999999999999999
+def MIN_ETINY : Int := -1999999999999999997
+
+/-- the numeral is within CPython's size limits for `int(text)` / `Decimal(text)` -/
+def InLimits (t : NumText) : Prop :=
+  t.intDigits.length ≤ INT_MAX_STR_DIGITS ∧ MIN_ETINY ≤ t.expo ∧ t.expo + ndigits t.coeff - 1 ≤ MAX_EMAX
+
+instance (t : NumText) : Decidable (InLimits t) := by unfold InLimits; exact inferInstance
+
+/-- `int(r * COIN)` where `r` is what `json.loads(…, parse_float=decimal.Decimal)` made of the text.
+    Numerals beyond CPython's limits make `json.loads` itself raise (ValueError from `int`,
+    decimal.InvalidOperation from `Decimal`); `_get_response` turns that into JSONRPCError(-342). -/
 def amountInNum (t : NumText) : Res Int :=
   if t.frac = none ∧ t.exp = none then
+    if t.intDigits.length > INT_MAX_STR_DIGITS then .error .rpcerr
     -- a Python int: exact
-    .ok (applySign t.neg (digitsVal t.intDigits * COIN))
+    else .ok (applySign t.neg (digitsVal t.intDigits * COIN))
+  else if t.expo + ndigits t.coeff - 1 > MAX_EMAX ∨ t.expo < MIN_ETINY then .error .rpcerr
   else do
     -- Decimal(text) is exact; Decimal * int converts COIN exactly, multiplies, then rounds (`_fix`)
     let (c, e) ← fix (t.coeff * COIN) t.expo
@@ -181,6 +200,7 @@ inductive CodeVal
   | bool (b : Bool)
   | null
   | str
+  | float                                      -- `NaN`, `Infinity`, `-Infinity`: Python floats
   | unhashable                                 -- a JSON array or object
 deriving DecidableEq, Repr
 
@@ -218,6 +238,7 @@ def CodeVal.key : CodeVal → Option Int
   | .bool b => some (if b then 1 else 0)
   | .null => none
   | .str => none
+  | .float => none                             -- nan is equal to nothing, ±inf to no int
   | .unhashable => none                        -- no registered code is a list or a dict (D19: the shipped
                                                -- `dict.get` raises TypeError here instead)
 
@@ -228,6 +249,7 @@ def CodeVal.show : CodeVal → String
   | .bool b => if b then "true" else "false"
   | .null => "null"
   | .str => "str"
+  | .float => "float"
   | .unhashable => "unhashable"
 
 /-- `JSONRPCError.SUBCLS_BY_CODE.get(rpc_error['code'], JSONRPCError)` -/
@@ -254,10 +276,14 @@ def wrapperCatches (method : String) : Option String :=
       method = "gettransaction" then some "InvalidAddressOrKeyError"
   else none
 
-/-- a Proxy method up to the point where it would start converting the result -/
+/-- a Proxy method up to the point where it would start converting the result.  `"@null"` is the
+    line protocol's text for a JSON `null` result; `gettxout` turns it into its documented IndexError
+    ("outpoint not found or spent").  Other conversions of results are not modelled here (amounts: (i),
+    hashes: (ii)). -/
 def methodOutcome (method : String) (r : Reply) : Outcome :=
   match callOutcome r with
   | .raise cls code => if wrapperCatches method = some cls then .pyExc "IndexError" else .raise cls code
+  | .result v => if method = "gettxout" ∧ v = "@null" then .pyExc "IndexError" else .result v
   | o => o
 
 /-! ### (iv) request ids -/
@@ -268,14 +294,21 @@ deriving DecidableEq, Repr
 
 def PState.init : PState := { idCount := 0 }
 
-inductive Req
-  | call          -- `_call`, whatever the reply turns out to be
-  | batch         -- `_batch`: ids are the caller's business
+/-- what happens to a `_call` after the id was taken -/
+inductive Fate
+  | replied (r : Reply)       -- any reply at all, including none / garbage
+  | connectionError           -- `request()` or `getresponse()` of the connection raises
 deriving DecidableEq, Repr
 
-/-- the state after the request and the id put into the request body by the proxy -/
+inductive Req
+  | call (f : Fate)           -- `_call`, whatever becomes of it
+  | batch                     -- `_batch`: ids are the caller's business
+deriving DecidableEq, Repr
+
+/-- the state after the request and the id put into the request body by the proxy: `self.__id_count += 1`
+    is the first statement of `_call`, before anything can fail -/
 def stepReq (s : PState) : Req → PState × Option Nat
-  | .call => ({ idCount := s.idCount + 1 }, some (s.idCount + 1))
+  | .call _ => ({ idCount := s.idCount + 1 }, some (s.idCount + 1))
   | .batch => (s, none)
 
 /-- the ids sent over a history of requests -/
